@@ -36,6 +36,7 @@ from spyne.error import ResourceNotFoundError
 
 from spyne.model import ByteArray, File, Fault, ComplexModelBase, Array, Any, \
     AnyDict, Uuid, Unicode
+from spyne.model.complex import XmlModifier
 
 from spyne.protocol.dictdoc import DictDocument
 
@@ -165,6 +166,12 @@ class HierDictDocument(DictDocument):
             raise ValidationError([key, inst])
 
     def _from_dict_value(self, ctx, key, cls, inst, validator):
+        if issubclass(cls, XmlModifier):
+            # XmlAttribute / XmlData only say where the value goes in an xml
+            # document. Here it's a plain member of the wrapped type, read and
+            # validated as such.
+            cls = cls.type
+
         if validator is self.SOFT_VALIDATION:
             self.validate(key, cls, inst)
 
